@@ -1,5 +1,6 @@
 (* Executable interface of the L1 model (PackedWrite / PackedRead). *)
 From A1 Require Import Per.Prim.
+From A1 Require Per.X691.
 Local Open Scope Z_scope.
 
 Definition zs (l : list N) : list Z := map Z.of_N l.
@@ -37,6 +38,12 @@ Fixpoint pattern (n : nat) (i a c : N) : list N :=
   match n with
   | O => []
   | S n' => ((a * i + c) mod 256)%N :: pattern n' (i + 1)%N a c
+  end.
+
+Definition enc_ref (o : option bits) : list Z :=
+  match o with
+  | Some b => 0 :: Z.of_nat (length b) :: zs (bytes_of_bits b)
+  | None => [1]
   end.
 
 Definition run_per (m : mode) (op : Z) (a : list Z) : list Z :=
@@ -103,5 +110,22 @@ Definition run_per (m : mode) (op : Z) (a : list Z) : list Z :=
   | 1040, lb :: ub :: ext :: bl :: bytes =>
       enc_r (fun '(bs, bl, buflen) => Z.of_N bl :: Z.of_N buflen :: pad_bytes bs buflen)
             (r_bitstring m (optn lb) (optn ub) (negb (ext =? 0)) (src_of_bytes (ns bytes) (Z.to_N bl)))
+  (* X.691 reference encodings (Per/X691.v): answer = 0 :: nbits :: bytes, or [1] when inadmissible *)
+  | 1051, lb :: ub :: v :: _ => enc_ref (X691.x_constrained lb ub v)
+  | 1052, lb :: v :: _ => enc_ref (X691.x_semi_constrained lb v)
+  | 1053, v :: _ => enc_ref (Some (X691.x_unconstrained v))
+  | 1054, v :: _ => enc_ref (Some (X691.x_normally_small (Z.to_N v)))
+  | 1055, lb :: ub :: v :: _ => enc_ref (X691.x_length (optn lb) (optn ub) (Z.to_N v))
+  | 1056, std :: ext :: idx :: _ => enc_ref (X691.x_index (Z.to_N std) (negb (ext =? 0)) (Z.to_N idx))
+  | 1057, lb :: ub :: ext :: n :: bytes =>
+      enc_ref (X691.x_octetstring (optn lb) (optn ub) (negb (ext =? 0)) (ns (firstn (Z.to_nat n) bytes)))
+  | 1058, lb :: ub :: ext :: n :: pa :: pc :: _ =>
+      enc_ref (X691.x_octetstring (optn lb) (optn ub) (negb (ext =? 0)) (pattern (Z.to_nat n) 0 (Z.to_N pa) (Z.to_N pc)))
+  | 1059, lb :: ub :: ext :: off :: len :: n :: bytes =>
+      enc_ref (X691.x_bitstring (optn lb) (optn ub) (negb (ext =? 0))
+                 (firstn (Z.to_nat len) (skipn (Z.to_nat off) (bits_of_bytes (ns (firstn (Z.to_nat n) bytes))))))
+  | 1060, lb :: ub :: ext :: off :: len :: n :: pa :: pc :: _ =>
+      enc_ref (X691.x_bitstring (optn lb) (optn ub) (negb (ext =? 0))
+                 (firstn (Z.to_nat len) (skipn (Z.to_nat off) (bits_of_bytes (pattern (Z.to_nat n) 0 (Z.to_N pa) (Z.to_N pc))))))
   | _, _ => [-1]
   end.
